@@ -159,3 +159,85 @@ def u_lines(doms, oracle, tlds=(0, 1)):
         for t in tlds:
             out.append('U %d %s %d %s 0' % (t, hx(d), rc, hx(asc)))
     return out
+
+# ------------------------------------------------------------------ UTF-8 candidates
+EDGE = [0x00, 0x01, 0x2e, 0x22, 0x5c, 0x7f, 0x80, 0x8f, 0x90, 0x9f, 0xa0, 0xbf, 0xc0, 0xc1, 0xc2, 0xdf, 0xe0, 0xed, 0xef, 0xf0, 0xf4, 0xf5, 0xf7, 0xf8, 0xff]
+
+def utf8_candidates(thorough=False):
+    """byte sequences to be tried as one 'character': all 1- and 2-byte sequences, a boundary cover of
+    3- and 4-byte sequences (all 3-byte sequences in thorough mode)."""
+    out = []
+    for a in range(1, 256):
+        out.append(bytes([a]))
+    for a in range(0x80, 256):
+        for b in range(1, 256):
+            out.append(bytes([a, b]))
+    cover = [0x01, 0x2e, 0x7f, 0x80, 0x8f, 0x90, 0x9f, 0xa0, 0xbf, 0xc0, 0xff]
+    if thorough:
+        for a in range(0xe0, 0xf0):
+            for b in range(0x80, 0xc0):
+                for c in range(1, 256):
+                    out.append(bytes([a, b, c]))
+    for a in list(range(0xe0, 0xf0)) + [0xdf, 0xf0]:
+        for b in cover:
+            for c in cover:
+                out.append(bytes([a, b, c]))
+    for a in range(0xf0, 0x100):
+        for b in cover:
+            for c in cover:
+                for d in cover:
+                    out.append(bytes([a, b, c, d]))
+    return out
+
+UTF8_CONTEXTS = [(b'', b''), (b'a', b'b'), (b'a.', b'.b'), (b'"', b'"'), (b'"\\', b'"'), (b'"a', b'".b'),
+                 (b'', b'"q"'), (b'a.', b'"q"'), (b'"q"', b''), (b'.', b''), (b'', b'.'), (b'\xd0\xb0', b'\xd0\xb1'),
+                 (b'"\\\\', b'"')]
+
+def utf8_lines(thorough=False):
+    out = []
+    for u in utf8_candidates(thorough):
+        if 0 in u:
+            continue
+        for pre, post in UTF8_CONTEXTS:
+            out.append('L %s -' % hx(pre + u + post))
+    # truncated sequences at the very end (missing continuation bytes)
+    for pre in (b'', b'a', b'"'):
+        for u in (b'\xc3', b'\xe2', b'\xe2\x82', b'\xf0', b'\xf0\x9f', b'\xf0\x9f\x98'):
+            out.append('L %s -' % hx(pre + u))
+    return out
+
+# ------------------------------------------------------------------ whole addresses
+ADDR_ALPHA = [b'a', b'1', b'.', b'@', b'[', b']', b'-', b':', b' ', b'(', b'#', b'A']
+ADDR_ALPHA_Q = [b'a', b'.', b'@', b'"', b'\\', b' ', b'[', b']', b'1', b'\xd0\xb0']
+
+def addr_class(n, alpha=ADDR_ALPHA):
+    return list(all_strings(alpha, n))
+
+def domains_of(addrs):
+    out = set()
+    for a in addrs:
+        i = a.rfind(b'@')
+        if i >= 0:
+            out.add(a[i + 1:])
+    return out
+
+GOOD_DOMAINS = [b'b.com', b'B.Org', b'test', b'a.test', b'x.example.com', b'abarth', b'nic.abarth', b'b.int', b'b.biz', b'b.arpa',
+                b'b.museum', b'[1.2.3.4]', b'[IPv6:::1]', b'[IPv6:1:2:3:4:5:6:7:8]', b'[1:2::3]', b'b', b'b.', b'b.com.', b'1.2',
+                b'xn--p1ai', b'b.xn--p1ai', 'почта.рф'.encode(), b'-b.com', b'b-.com', b'b..com', b'[1.2.3.4]x', b'b.invalid-tld-zz']
+GOOD_LOCALS = [b'a', b'a.b', b'"a"', b'"a b".c', b'a.', b'.a', b'a..b', b'"a', b'a"b', b'a b', b'\xd0\xb0', b'a.\xd0\xb0.b', b'"\\a"', b'"\r\n "',
+               b'a#b', b'"\x01"', b'"a"b', b'(a)', b'a@b']
+
+def addr_boundary():
+    """local parts of 62..67 octets in every word shape, with and without further '@' inside quotes."""
+    out = []
+    for n in range(61, 68):
+        shapes = [b'a' * n, b'a.' * (n // 2) + b'a' * (n % 2), b'"' + b'a' * (n - 2) + b'"', b'"@' + b'a' * (n - 3) + b'"',
+                  b'"a@' + b'b' * (n - 4) + b'"', b'a' * (n - 4) + b'."@"', b'a' * (n - 2) + b'@a', b'a@' + b'b' * (n - 2),
+                  'а'.encode() * (n // 2) + b'a' * (n % 2)]
+        for l in shapes:
+            for d in (b'b.com', b'b', b'[1.2.3.4]', b'c@b.com', b''):
+                out.append(l + b'@' + d)
+    return out
+
+def addr_structured():
+    return [l + b'@' + d for l in GOOD_LOCALS for d in GOOD_DOMAINS]
